@@ -37,6 +37,8 @@ def prop_of(prov, item):
         return MERGED_ERR.get(item[1], "C05") if asp == "err" else MERGED.get(asp, "C05")
     if prov in ("merge", "merge-zero"):
         return "C05"
+    if prov == "engfail":
+        return "C19"
     if prov == "concurrent":
         return "C11"
     if prov == "dvwalk-built":
@@ -82,6 +84,9 @@ def plan_for(pid, tier):
     if pid == "C10":
         common.update(life_module="BuildPool", life_cfg="BuildPoolQ.cfg" if q else "BuildPool.cfg", replay_args=["-nogc"], attr_all=True,
                       invariants=["BuildIndependent", "AllWF"])
+    P["C19"] = [("engfail", 2 if q else 12, 0)]
+    if pid == "C19":
+        common.update(life_cfg="LifeVecQ.cfg", tags=("verif", "vectors"), attr_all=True, walks=40)
     P["C14"] = [("vec", 24 if q else 250, 5)]
     P["C15"] = [("vec", 30 if q else 300, 10)]
     if pid in ("C14", "C15"):
@@ -189,7 +194,7 @@ def scenario_slice(trace, l):
 def process_prefix(trace, l, ranges):
     """lines of the harness process that produced 1-based line l, from its first line up to l."""
     lo = 1
-    for a, b in ranges:
+    for a, b, _ in ranges:
         if a <= l <= b:
             lo = a
     out = []
@@ -266,6 +271,8 @@ def run_life_check(pid, tier, seed, replay=None, pre=None):
         log("G: " + module + "(%s) %d distinct states, %d edges; %d walks sampled" % (plan["life_cfg"], lst["distinct_states"], lst["states_generated"], len(walks)))
         # R
         traces = [sc.path("t-walks.ndjson")]
+        invocations = []
+        invocations.append((zx, ["life-replay", "-in", sc.path("walks.ndjson"), "-catalog", sc.path("cat.json"), "-seed", str(seed)] + plan.get("replay_args", [])))
         log("R: " + harness(zx, ["life-replay", "-in", sc.path("walks.ndjson"), "-catalog", sc.path("cat.json"),
                                   "-out", traces[0], "-seed", str(seed), "-dir", sc.path("segs0")] + plan.get("replay_args", []), sc).strip())
         # T
@@ -277,6 +284,7 @@ def run_life_check(pid, tier, seed, replay=None, pre=None):
             if "race" in ent[3:]:
                 zxr = zxr or build_harness(plan["tags"], race=True)
                 exe = zxr
+            invocations.append((exe, ["life", "-profile", prof, "-n", str(n), "-steps", str(steps), "-seed", str(seed * 1000 + k)]))
             log("T: %s " % prof + harness(exe, ["life", "-profile", prof, "-n", str(n), "-steps", str(steps), "-seed", str(seed * 1000 + k),
                                             "-out", tp, "-dir", sc.path("segs%d" % (k + 1))], sc).strip())
             traces.append(tp)
@@ -290,7 +298,7 @@ def run_life_check(pid, tier, seed, replay=None, pre=None):
                     for line in fh:
                         out.write(line)
                         nl += 1
-                ranges.append((n0 + 1, nl))
+                ranges.append((n0 + 1, nl, invocations[len(ranges)]))
         # V
         mism, accepted, rej, vst = validate(sc, allp, "trace.out")
         tst, samples = trace_stats(allp)
@@ -381,6 +389,17 @@ def confirm(pid, zx, sc, trace, viol, known, plan, seed, ranges, limit=3, pre=No
             same = reproduced(rerun_slice(zx, sc, sl))
             if same:
                 log("note: %s needs the preceding history of the process to manifest (%d events replayed)" % (v["key"], len(lines)))
+        if not same and v["l"] > 0:
+            # last resort: run the harness invocation that produced the line once more (same seed, same arguments)
+            for a, b, (exe, args) in ranges:
+                if a <= v["l"] <= b:
+                    tp = sc.path("again.ndjson")
+                    harness(exe, args + ["-out", tp, "-dir", sc.path("segs-again")], sc)
+                    m2, _, rej2, _ = validate(sc, tp, "again.out", timeout=1500)
+                    same = any(key_of(m["prov"], it) == v["key"] for m in m2 for it in m["bad"]) or (v["prov"] == "rejected" and rej2 is not None)
+                    if same:
+                        log("note: %s reproduced by running the same harness invocation again" % v["key"])
+                        lines = process_prefix(trace, v["l"], ranges)[-200:]
         if not same and v["prov"] == "concurrent":
             # schedule-dependent: the recorded execution itself is the evidence (the oracle is deterministic)
             log("note: %s was observed under concurrency and does not reproduce sequentially" % v["key"])
